@@ -20,6 +20,9 @@ func nameConforms(c *Ctx, pa *provAnalysis, format string, v ssa.Value) (bool, s
 		if strings.HasPrefix(s, "/") || strings.Contains(s, "..") {
 			return false, fmt.Sprintf("constant name %q is not a relative path", s)
 		}
+		if (format == "deb" || format == "ipk") && !strings.HasPrefix(s, "./") {
+			return false, fmt.Sprintf("constant name %q lacks the ./ prefix every member of a %s tar carries", s, format)
+		}
 		return true, fmt.Sprintf("constant %q", s)
 	}
 	if p.has(helper) {
@@ -35,6 +38,17 @@ func nameConforms(c *Ctx, pa *provAnalysis, format string, v ssa.Value) (bool, s
 		for _, s := range p.consts() {
 			if strings.HasPrefix(s, "/") || strings.Contains(s, "..") {
 				return false, fmt.Sprintf("constant component %q is not relative", s)
+			}
+		}
+		if format == "deb" || format == "ipk" {
+			prefixed := false
+			for _, s := range p.consts() {
+				if strings.HasPrefix(s, "./") {
+					prefixed = true
+				}
+			}
+			if !prefixed {
+				return false, fmt.Sprintf("built from the constants %v without the ./ prefix (or the helper that adds it): dpkg and opkg look the control members up as ./<name>", p.consts())
 			}
 		}
 		return true, "built from constants only"
@@ -239,6 +253,37 @@ func checkC04(c *Ctx, r *Report) {
 	checkRPMNames(c, r)
 	checkBuffersReadOnce(c, r)
 	checkHeaderIDsAndFlags(c, r)
+	// modes and kinds the planner hands to the header writers (rules of C01):
+	// a directory mode with Go's type or special bits is written in base-256
+	// by the packagers that copy the stored mode as it stands
+	{
+		tmpP := newReport("tmp")
+		checkPlannerDefaults(c, tmpP)
+		nP := 0
+		for _, o := range tmpP.Obls {
+			if o.Rule == "F2-perm" || o.Rule == "F2-symlink-nostat" {
+				o.Rule = "plan-" + o.Rule
+				r.Obls = append(r.Obls, o)
+				nP++
+			}
+		}
+		r.Floor("plan-F2-perm", nP, 2)
+	}
+	// the command replaces the target file (rule of C17): a package written
+	// over a longer file without truncation is followed by the old tail
+	{
+		tmpT := newReport("tmp")
+		checkSchemaOutputFile(c, tmpT)
+		nT := 0
+		for _, o := range tmpT.Obls {
+			if o.Rule == "output-truncates" {
+				o.Rule = "cli-output-truncates"
+				r.Obls = append(r.Obls, o)
+				nT++
+			}
+		}
+		r.Floor("cli-output-truncates", nT, 2)
+	}
 
 	// ---- O3 archlinux: .INSTALL only with scripts ----
 	if pk := c.PackagerByFormat("archlinux"); pk != nil {
@@ -397,7 +442,7 @@ func checkC04(c *Ctx, r *Report) {
 	n5 := 0
 	for _, o := range tmp5.Obls {
 		switch o.Rule {
-		case "K2", "K2b", "K2c", "K3", "O5-parents", "O5-parents-clean", "O5-sort", "D6", "G-base", "G-prefix", "G-cutset", "G-rooted":
+		case "K2", "K2b", "K2c", "K5-changelog", "K5-before-plan", "K8-implicit-only-dirs", "K3", "O5-parents", "O5-parents-clean", "O5-sort", "D6", "G-base", "G-prefix", "G-cutset", "G-rooted":
 			o.Rule = "plan-" + o.Rule
 			r.Obls = append(r.Obls, o)
 			n5++
